@@ -278,6 +278,22 @@ export class Cache extends Store {
 """,
 })
 
+_p("ts_mixed_literals", "typescript", {
+    "lits.ts": """function handler(req: string, n: number): number {
+  const mixed = [1, 'two', true, null, { k: 1 }, [2, 3], req, n + 1, -1, 1.5, undefined, `t${n}`];
+  const nums = [1, 2, 3];
+  const strs = ['a', "b", `c`];
+  const objs = [{ a: 1 }, { b: 'x' }, new Map(), [1], () => 1, function () { return 2; }];
+  let t = mixed[6];
+  sink(t);
+  const nested = [[1, 'a'], [true, null], [{}, []]];
+  return nums.length + strs.length + objs.length + nested.length;
+}
+function main(): void { handler('x', 3); }
+main();
+""",
+})
+
 _p("ts_shapes", "typescript", {
     "main.ts": """import { Shape, Circle, Square } from './shapes';
 
